@@ -68,8 +68,8 @@ const (
 // ---- reference timeline ----
 
 type planStep struct {
-	At   time.Duration
-	Kind byte // 'a' answer the probe sent at Probe (in time or late), 'd' peer data frame, 'w' application W send, 'r' reply to all outstanding
+	At    time.Duration
+	Kind  byte // 'a' answer the probe sent at Probe (in time or late), 'd' peer data frame, 'w' application W send, 'r' reply to all outstanding
 	Probe time.Duration
 }
 
